@@ -19,7 +19,9 @@ CONSTANTS Configs,       \* set of configuration records
           MaxOffer,      \* candidates a parent may offer per round
           MaxLocal,      \* evaluations of a local search: 1..MaxLocal
           AllowSelfStop, \* CMA-ES internal stop explored?
-          EmitScripts    \* print one scenario script per terminal state?
+          EmitScripts,   \* print one scenario script per terminal state?
+          ExactOffers    \* scenario export: parents offer no more than the filters let through (the real run can
+                         \* then follow the script literally; cutting is covered by the corpus and Sprout.tla)
 
 VARIABLES st, script
 vars == <<st, script>>
@@ -111,6 +113,7 @@ Sprout ==
          \E S \in [ParentSet(st) -> 0..MaxOffer] :
             /\ \A d \in ParentSet(st) : O[d] <= OfferCap(st, d)
             /\ Filtered(st, O, S)
+            /\ ExactOffers => S = O
             /\ LET R == RoundOf(st, S) IN
                /\ ValidRound(st, R) /\ WithinLimit(st, R)
                /\ st' = DoSprout(st, R)
